@@ -266,7 +266,8 @@ class Builder:
         """One {% fill %} possibly wrapped in with/if/for (the first one is unconditional)."""
         has_ref = self.cfg["naming"] == "pool" or bool(scope.vars)
         wrap = "none"
-        if not first and has_ref and self.chance(20):
+        if has_ref and ((not first and self.chance(20)) or (first and self.chance(12))):
+            # (a body whose fills ALL vanish at run time is the implicit default fill - documented in resolve_fills)
             wrap = "if"
         elif self.chance(15):
             wrap = "with"
@@ -295,7 +296,10 @@ class Builder:
             inner_scope = scope.extend([v], loop=True)
             name_expr = {"var": v}
         elif wrap == "if":
-            wrapper = {"t": "if", "n": self.ref(scope), "a": None, "b": []}
+            cond = self.ref(scope)
+            if scope.loops > 0 and self.chance(50):
+                cond = self.pick(["forloop.first", "forloop.last"])  # differs between renders of the same tag
+            wrapper = {"t": "if", "n": cond, "a": None, "b": []}
         f = {"t": "fill", "name": name_expr, "c": []}
         body_scope = inner_scope
         if slotinfo and slotinfo["keys"] and self.chance(60) or self.chance(8):
